@@ -240,11 +240,26 @@ pub fn slot_edits(src: &str) -> Vec<(String, String)> {
                     }
                     let open = off + 2;
                     let close = open + stext.len();
-                    for (ins, name) in [(" ", "space"), ("\t", "tab"), ("\n", "line break"), (";", "terminator"), ("  \n ", "spaces and a line break")] {
+                    for (ins, name) in [(" ", "space"), ("\t", "tab"), ("\n", "line break"), (";", "terminator"), ("  \n ", "spaces and a line break"), ("# c\n", "comment, then a line break")] {
                         out.push((splice(src, open, 0, ins), format!("{} at the start of slot {} of string token {}", name, si, i)));
                     }
                     for (ins, name) in [(" ", "space"), ("\t", "tab")] {
                         out.push((splice(src, close, 0, ins), format!("{} at the end of slot {} of string token {}", name, si, i)));
+                    }
+                    // between the tokens of the slot expression: a space after every token; after a
+                    // continuation token also a line break, and a comment (holding a quote) with a line break
+                    let (stoks, serr) = lex_raw(stext);
+                    if serr.is_none() {
+                        for (ti, st) in stoks.iter().enumerate() {
+                            if st.tok == Tok::End {
+                                continue;
+                            }
+                            out.push((splice(src, open + st.end, 0, " "), format!("space after token {} inside slot {} of string token {}", ti, si, i)));
+                            if is_cont(st) && !matches!(&st.tok, Tok::Sym(x) if *x == "{") {
+                                out.push((splice(src, open + st.end, 0, "\n  "), format!("line break after continuation token {} inside slot {} of string token {}", ti, si, i)));
+                                out.push((splice(src, open + st.end, 0, " # the \"q\n"), format!("comment holding a quote after continuation token {} inside slot {} of string token {}", ti, si, i)));
+                            }
+                        }
                     }
                 }
             }
